@@ -116,7 +116,7 @@ let check_C10 fields =
   if field_opt "tlsobs" fields <> None then check_C10_tls fields else
   (* lock-step cases: the per-message discipline; all cases: a startup packet within the limit is served *)
   check_with false (fun sc log -> if is_lock fields then oracle_C10 sc log else startup_served sc log) fields
-let check_C13 = check_with true (fun sc log -> oracle_C13 sc log && oracle_C13_turns sc log && oracle_C13_strict sc log)
+let check_C13 = check_with true (fun sc log -> oracle_C13 sc log && oracle_C13_turns sc log && oracle_C13_strict sc log && oracle_early_end sc log)
 let check_C19 fields =
   (* lock-step cases are also judged by the per-message discipline (Terminate rule) *)
   check_with false (fun sc log -> oracle_C19 sc log && (not (is_lock fields) || oracle_turns sc log)) fields
